@@ -58,6 +58,62 @@ let show_file w n =
   | Some f -> (match f.f_data with Empty -> "e" | Partial -> "p" | Complete v -> "c" ^ string_of_int (int_of_nat v))
               ^ (if f.f_durable then "d" else "") ^ "m" ^ string_of_int (int_of_nat f.f_mtime)
 
+(* ---- rule trees:  cond ::= a<i> | p<i> | T | &(c,c) | |(c,c) | !(c)
+                     acts ::= tok{,tok}   tok ::= mA mB fn fc g<n> l<n> h<n> x<n> D J P B
+                     rule ::= R[cond;acts] | K[cond;rule...]                                   ---- *)
+let parse_rules (s : string) : rule list =
+  let pos = ref 0 in
+  let peek () = if !pos < String.length s then s.[!pos] else '\000' in
+  let adv () = incr pos in
+  let expect c = if peek () = c then adv () else failwith (Printf.sprintf "expected %c at %d" c !pos) in
+  let num () = let st = !pos in while (match peek () with '0'..'9' -> true | _ -> false) do adv () done;
+    nat_of_int (int_of_string (String.sub s st (!pos - st))) in
+  let rec cond () =
+    match peek () with
+    | 'a' -> adv (); CAtom (num ())
+    | 'p' -> adv (); CPlain (num ())
+    | 'T' -> adv (); CAll
+    | '&' -> adv (); expect '('; let l = cond () in expect ','; let r = cond () in expect ')'; CAnd (l, r)
+    | '|' -> adv (); expect '('; let l = cond () in expect ','; let r = cond () in expect ')'; COr (l, r)
+    | '!' -> adv (); expect '('; let c = cond () in expect ')'; CNeg c
+    | c -> failwith (Printf.sprintf "cond %c at %d" c !pos) in
+  let act () =
+    match peek () with
+    | 'm' -> adv (); let c = peek () in adv (); XMove (nat_of_int (Char.code c - Char.code 'A'))
+    | 'f' -> adv (); let c = peek () in adv (); XFlag (c = 'c')
+    | 'g' -> adv (); XFlags (num ())
+    | 'l' -> adv (); XLabel (num ())
+    | 'h' -> adv (); XAddHeader (num ())
+    | 'x' -> adv (); XExec (num ())
+    | 'D' -> adv (); XDiscard | 'J' -> adv (); XReject | 'P' -> adv (); XPass | 'B' -> adv (); XBreak
+    | c -> failwith (Printf.sprintf "act %c at %d" c !pos) in
+  let rec rule () =
+    match peek () with
+    | 'R' -> adv (); expect '['; let c = cond () in expect ';';
+        let acts = ref [act ()] in
+        while peek () = ',' do adv (); acts := act () :: !acts done;
+        expect ']'; RActs (c, List.rev !acts)
+    | 'K' -> adv (); expect '['; let c = cond () in expect ';';
+        let rs = ref [] in
+        while peek () <> ']' do rs := rule () :: !rs done;
+        expect ']'; RBlock (c, List.rev !rs)
+    | c -> failwith (Printf.sprintf "rule %c at %d" c !pos) in
+  let rs = ref [] in
+  while !pos < String.length s do rs := rule () :: !rs done;
+  List.rev !rs
+
+let show_act = function
+  | XMove m -> "m" ^ String.make 1 (Char.chr (Char.code 'A' + int_of_nat m))
+  | XFlag c -> if c then "fc" else "fn"
+  | XFlags n -> "g" ^ string_of_int (int_of_nat n) | XLabel n -> "l" ^ string_of_int (int_of_nat n)
+  | XAddHeader n -> "h" ^ string_of_int (int_of_nat n) | XExec n -> "x" ^ string_of_int (int_of_nat n)
+  | XDiscard -> "D" | XReject -> "J" | XPass -> "P" | XBreak -> "B"
+let show_entry = function
+  | MAct (a, d) ->
+      show_act a ^ "@" ^ (match d.d_md with Some m -> String.make 1 (Char.chr (Char.code 'A' + int_of_nat m)) | None -> "-")
+      ^ (match d.d_cur with Some true -> "c" | Some false -> "n" | None -> "-")
+  | MSentinel -> "S" | MPat a -> "P" ^ string_of_int (int_of_nat a)
+
 let handle cmd args =
   match cmd, args with
   | "b64", [s] -> (match base64_decode (unhex s) with
@@ -98,6 +154,21 @@ let handle cmd args =
       (match main false (stdin = "1") (conf_ok = "1") (syntax = "1") (List.map md mds) with
        | Usage -> "usage"
        | Exit (s, n) -> string_of_int (int_of_z s) ^ " " ^ string_of_int (int_of_nat n))
+  | "rules", [tree; envbits] ->
+      (* envbits: string of 0/1, atom i true iff envbits.[i] = '1' *)
+      let rs = parse_rules tree in
+      let env n = let i = int_of_nat n in i < String.length envbits && envbits.[i] = '1' in
+      let m = (match run_rules rs env with None -> "NOMATCH" | Some l -> "MATCH " ^ String.concat " " (List.map show_entry l)) in
+      let sp = (match spec_run rs env with None -> "NONE" | Some l -> "ACTS " ^ String.concat " " (List.map show_act l)) in
+      let show_sum l = let (oth, d) = summary l in
+        String.concat "," (List.map show_act oth) ^ "@" ^
+        (match d with None -> "--" | Some d ->
+           (match d.d_md with Some m -> String.make 1 (Char.chr (Char.code 'A' + int_of_nat m)) | None -> "-") ^
+           (match d.d_cur with Some true -> "c" | Some false -> "n" | None -> "-")) in
+      let msum = (match run_rules rs env with None -> "none" | Some l -> show_sum l) in
+      let ssum = (match spec_run rs env with None -> "none" | Some l -> show_sum (entries_of l)) in
+      let ((t1, t2), t3) = event_flags rs env in
+      m ^ " | " ^ sp ^ " | " ^ msum ^ " | " ^ ssum ^ " | " ^ (if t1 then "T1" else "") ^ (if t2 then "T2" else "") ^ (if t3 then "T3" else "") ^ (if clean rs env then "clean" else "")
   | "io", [a; ver; outs] ->
       let outs = if outs = "-" then [] else List.init (String.length outs) (fun i -> outcome_of_char outs.[i]) in
       let r = replay_action (action_of_string a) (nat_of_int (int_of_string ver)) outs in
